@@ -1695,6 +1695,31 @@ def _deserialize_keras_object(ip, identifier, module_objects=None, custom_object
   raise Unsupported("deserialize_keras_object of %r" % (identifier,))
 
 
+class JsonText(object):
+  """json.dumps result: an opaque text carrying its document (json.loads returns an equal fresh copy)."""
+
+  def __init__(self, doc):
+    self.doc = doc
+
+
+@model("json.dumps")
+def _json_dumps(ip, obj, *a, **k):
+  return JsonText(ip.deepcopy(obj))
+
+
+@model("json.loads")
+def _json_loads(ip, text, *a, **k):
+  if isinstance(text, JsonText):
+    return ip.deepcopy(text.doc)
+  if isinstance(text, str):
+    import json
+    return json.loads(text)
+  raise Unsupported("json.loads of %r" % (text,))
+
+
+const("types.FunctionType", ExtClass("types.FunctionType", check=lambda v: isinstance(v, (FuncVal, Builtin))))
+
+
 @model("re.sub")
 def _re_sub(ip, pat, repl, s, *a, **k):
   if isinstance(s, str) and isinstance(repl, str):
